@@ -650,7 +650,7 @@ func (c *FnCtx) typeAssert(fr *Frame, st *State, x *ssa.TypeAssert) {
 		if typeKey(x.AssertedType) == "[]interface{}" && val.kind != kLit {
 			bv := ts.Bound("h", SInt)
 			hv := c.height(stc, v)
-			c.addFactNth(stc, val, ts.Quant("forall", bv, ts.Implies(ts.And(ts.Le(ts.Int(0), bv), ts.Lt(bv, ts.Len(val))), ts.Lt(c.height(stc, ts.Nth(val, bv)), hv))))
+			c.addFactT(stc, hv, ts.Quant("forall", bv, ts.Implies(ts.And(ts.Le(ts.Int(0), bv), ts.Lt(bv, ts.Len(val))), ts.Lt(c.height(stc, ts.Nth(val, bv)), hv))))
 		}
 		if _, isMap := x.AssertedType.Underlying().(*types.Map); isMap {
 			// domain assumption: an interface value never holds a nil map (decoders and literals never produce one)
@@ -813,7 +813,9 @@ func (c *FnCtx) height(st *State, v *Term) *Term {
 	mt := types.NewMap(types.Typ[types.String], types.NewInterfaceType(nil, nil))
 	mh := c.mapHeaps(st, mt)
 	h := ts.UF("height", SInt, c.heap(st, mh.dom, mh.sdom), c.heap(st, mh.sel, mh.ssel), v)
-	c.addFactT(st, h, ts.And(ts.Le(ts.Int(0), h), ts.Le(h, ts.BigInt("4294967296"))))
+	if len(ts.FreeBoundVars(h)) == 0 {
+		c.addFactT(st, h, ts.And(ts.Le(ts.Int(0), h), ts.Le(h, ts.BigInt("4294967296"))))
+	}
 	c.trusted["domain: Maps are finite acyclic trees (nesting height below 2^32); ghost function height() is assumed, not computed"] = true
 	return h
 }
